@@ -415,12 +415,34 @@ func ruleCloseCoversWrittenFields(r *Run, p *Prog, rule string) {
 		eachInstr(p.View(cl, "", nil), func(b *ssa.BasicBlock, i int, in ssa.Instruction) {
 			switch x := in.(type) {
 			case *ssa.TypeAssert:
-				if fv, _ := loadedField(x.X); fv != nil {
+				a := x.X
+				for {
+					if ci, ok := a.(*ssa.ChangeInterface); ok {
+						a = ci.X
+						continue
+					}
+					break
+				}
+				if fv, _ := loadedField(a); fv != nil {
 					closed[fname(fv)] = true
 				}
 			case *ssa.Call:
 				if x.Call.IsInvoke() && x.Call.Method.Name() == "Close" {
 					if fv, _ := loadedField(x.Call.Value); fv != nil {
+						closed[fname(fv)] = true
+					}
+				}
+				// handed to a shared helper (`closeIfCloser(w.Writer)`), possibly as another
+				// interface type: the field is offered for closing there
+				for _, a := range x.Call.Args {
+					for {
+						if ci, ok := a.(*ssa.ChangeInterface); ok {
+							a = ci.X
+							continue
+						}
+						break
+					}
+					if fv, _ := loadedField(a); fv != nil {
 						closed[fname(fv)] = true
 					}
 				}
